@@ -912,11 +912,14 @@ def battery(ctx, chk, n_recipes, n_sp, focus=None):
                 chk.add_program(recipe, "lazy>" + mode.split(">")[1])
         ctx.count("programs:sum-product")
     n_extra = max(1, (n_recipes + n_sp) // 3)
-    fams = list(X.FAMILIES)
+    # positional-axis bookkeeping (two-Tensor contractions) has a large discrete space of input orders: weight 4
+    fams = list(X.FAMILIES) + ["tensordot"] * 3
     for k in range(n_extra):
         family = fams[k % len(fams)]
         subseed = rng.randrange(10 ** 9)
         modes = rng.sample(X.EXTRA_MODES, 2) + (["eager"] if k % 2 == 0 else [])
+        if family == "tensordot":       # the two-Tensor contraction rule: direct, normalize-built, optimizer
+            modes = ["eager", rng.choice(["normalize>eager", "reflect>optimizer", "lazy>optimizer", "normalize>sequential"])]
         if family == "subschain":       # the fusion rule is only reached where the term stays lazy
             modes = ["normalize", rng.choice(["unfold", "normalize>eager", "reflect>optimizer", "reflect>normalize"])]
         for mode in modes:
